@@ -4,6 +4,7 @@ use std::path::Path;
 use action::all_action_types;
 use action::ActionContext;
 use action::ActionProvider;
+use action::{Change, Update};
 
 use command::CommandType;
 use command::GenerateCommand;
@@ -604,7 +605,22 @@ impl Server {
             })
             .unwrap();
 
-        let changes = action_provider.changes(target_node_id, self).unwrap();
+        let changes = action_provider
+            .changes(target_node_id, self)
+            .unwrap()
+            .into_iter()
+            .map(|change| match change {
+                // an update replaces the whole text of a note: its front matter goes with it
+                Change::Update(update) => Change::Update(Update {
+                    markdown: self
+                        .database
+                        .graph()
+                        .with_front_matter(&update.key, update.markdown),
+                    key: update.key,
+                }),
+                other => other,
+            })
+            .collect_vec();
 
         let mut action = code_action.clone();
         action.edit = Some(WorkspaceEdit {
